@@ -53,4 +53,16 @@ PROPS = {
         "required_roots": ["wav", "aiff", "sd2", "xi", "mpc2k"],
         "assumptions": COMMON_ASSUME,
     },
+    "C02": {
+        "harness": "h_conv", "level": "exploration", "variants": ["fast", "fast-sse2"],
+        "technique": "exhaustive enumeration of finite code spaces / boundary lattices through every conversion routine of the real library, compared with a reference written from the docs",
+        "level_text": "all 2^8 / 2^16 stored codes, all 2^16 short inputs, the 327680-point 24/32-bit lattices and a ~95000-point float lattice (all finite top-half float patterns, k/2^(w-1), (k+-1/2)/(2^(w-1)-1), +-1, +-(1-ulp)) go through each (encoding, byte order, caller type, norm/clip/scale setting) kernel of the real library in two build variants (lrint and SSE2); every produced value is compared with engine/ref_conv.c",
+        "level_note": "float->int results outside the integer range with clipping off are not compared (unspecified); with clipping on the in-range result must lie between the values for scale 2^(w-1)-1 and 2^(w-1) (docs do not fix the constant) and saturate beyond; SFC_SET_SCALE_FLOAT_INT_READ only sign/monotonicity/full-scale/short-int agreement; float->G.711 only on the 16384 inputs s=4k",
+        "rule": "RAW container: encoding {s8,u8,16,24,32,float,double,ulaw,alaw} x byte order {le,be} x caller type x {norm} x {clip} x {scale switches} x read/write, one case per kernel+setting processing the complete value set; plus every other container offering the encoding with a 2900-value subset written as short and float and read through 4 types. non-trivial = every case; values compared are counted separately",
+        "bounds": {"quick": "24-bit: 2^16 high x 5 low bytes", "thorough": "24-bit: all 2^24 codes"},
+        "extra_counters": ["values_compared"],
+        "deadline": {"quick": 280, "thorough": 1800},
+        "required_roots": ["pcm_16", "pcm_24", "float", "double", "ulaw", "cross"],
+        "assumptions": COMMON_ASSUME[:1] + ["reference conversions engine/ref_conv.c and engine/ref_g711.c written from docs/api.md, docs/command.md and ITU-T G.711", "variants: -O2 (psf_lrint = lrint) and -O2 -DUSE_SSE2 -msse2 (psf_lrint = cvtsd2si)"],
+    },
 }
